@@ -168,6 +168,7 @@ __CPROVER_ensures((g_last_r == MP_parsing_error || g_last_r < MP_continue_input 
 '''),
 ]
 
+REPLAY12 = dict(replay='c12req:limits', replay_link=['-fno-access-control', '-L{BUILD}', '-lcppcms', '-L{BUILD}/booster', '-lbooster', '-lpthread'], replay_exhaustive='the real http::request fed multipart bodies through prepare / on_content_start / get_buffer / on_content_progress: one field or file of 0..5000 bytes (with a boundary look-alike inside), with and without a preceding field, x 12 read-buffer sizes (1 .. 65536) with content_length_limit 100: over-limit form fields must give 413 for EVERY chunking, everything else must be delivered byte for byte; bodies with bytes after the final boundary, cut short, unterminated or without any boundary must give 400 (432 runs)')
 jobs = [
     dict(name='request_on_content_start', props=P, enforce='request_on_content_start', harness=r'''
     struct req r; r.read_size = 0; r.read_full = 0; r.mp_parser = 0;
@@ -179,11 +180,11 @@ jobs = [
     /* callers pass NUL-terminated storage (query string; std::string): one byte follows `end` */
     size_t n; __CPROVER_assume(n <= BUF_CAP); WIT_CAP(n); char *buf = malloc(n + 1); __CPROVER_assume(buf != NULL); g_ins = 0; WIT_BUF(0, buf, n);
     request_parse_form_urlencoded(buf, buf + n); VERIF_REACH;''', witness=dict(bufs=['in'])),
-    dict(name='req_read_file', props=['C12'], enforce='req_read_file', harness=r'''
+    dict(name='req_read_file', props=['C12'], **REPLAY12, enforce='req_read_file', harness=r'''
     struct istrm st; SYM_BUF(char, b, n, BUF_CAP); st.p = b; st.n = n; size_t pos, k, rs; st.pos = pos; g_rf_k = k;
     req_read_file(rs, &st); VERIF_REACH;'''),
-    dict(name='req_size_ok', props=['C12'], enforce='req_size_ok', harness='int hm; long long fs, sz; g_has_mime = hm != 0; g_fsize = fs; g_notice = 0; req_size_ok(sz); VERIF_REACH;'),
-    dict(name='req_mp_loop', props=['C12', 'C02'], enforce='req_mp_loop', harness=r'''
+    dict(name='req_size_ok', props=['C12'], **REPLAY12, enforce='req_size_ok', harness='int hm; long long fs, sz; g_has_mime = hm != 0; g_fsize = fs; g_notice = 0; req_size_ok(sz); VERIF_REACH;'),
+    dict(name='req_mp_loop', props=['C12', 'C02'], **REPLAY12, enforce='req_mp_loop', harness=r'''
     struct req2 r; SYM_BUF(char, b, n, BUF_CAP); int mf, cf; r.filter_is_multipart_filter = mf != 0; g_mpf = r.filter_is_multipart_filter; g_cur_file = cf; __CPROVER_assume(r.cl_limit <= BUF_CAP); g_cl_limit = r.cl_limit; long long ol; g_other_limit = ol;
     g_pend_size = 0; g_pend_cb = 0; g_pend_seek = 0; g_evbad = 0; g_size_failed = 0; g_last_r = MP_continue_input; g_b0 = OFF(b);
     req_mp_loop(&r, b, b + n); VERIF_REACH;'''),
